@@ -29,7 +29,7 @@ from pipefunc.map._storage_array._base import storage_registry
 
 PID = "C07"
 PROPS = ["PfModel.Props.C07", "PfModel.Props.C07Ext", "PfModel.Props.C07Geom", "PfModel.Props.C07Conc", "PfModel.Props.C07Sess",
-         "PfModel.Props.C07Keys"]
+         "PfModel.Props.C07Keys", "PfModel.Props.C07Hist"]
 DRIVER = "C07"
 RULE = ("a case is one geometry (external/internal sizes 1..3, total rank <= 3, any of the 2^rank masks) and one operation "
         "sequence run on every sampled backend; corpus first, then (a) per small geometry an exhaustive sweep of all key tuples over "
